@@ -1,3 +1,3 @@
-import TlsModel.Proto
-/- driver stub for C02: replaced when the model exists -/
-def main : IO Unit := Tls.protoMain (fun _ => none)
+import TlsModel.RecordDrv
+/- driver for C02: record-layer model with toy primitives (see TlsModel/RecordDrv.lean for the protocol) -/
+def main : IO Unit := Tls.protoMain Tls.Rec.Drv.handle
